@@ -33,8 +33,8 @@ TRUSTED = ["harness/h_C06.cpp: hand-off semaphores force the schedule; the guard
            "meta-theorem: C++11 DRF-SC (a race-free program using only seq_cst atomics has interleaving semantics); "
            "race freedom of the plain buffer bytes is theorem C06_drf",
            "the hook stands before each memcpy, not inside it (byte granularity is covered by the model and C06_drf only)",
-           "Section hypothesis frame_hd: frame (m ++ rest) = length m for well-formed m (to be discharged by the "
-           "OSC length theorem for non-bundle messages)"]
+           "Section hypothesis frame_hd: frame (m ++ rest) = length m for well-formed m that is self-delimiting or "
+           "has nothing behind it (discharged for the OSC length model: C06_frame_ok_osc, C06_fifo_osc_bundle_last)"]
 ASSUMPTIONS = ["exactly one writer thread and one reader thread; reads are guarded by hasNext with the same lookahead flag",
                "messages are well-formed non-bundle OSC messages (a bundle followed by another message cannot be framed: "
                "finding bundle-not-last)",
@@ -232,7 +232,6 @@ def parse_out(ln):
         return None
     return d
 
-READ_SHAPES = ([1, 2, 18, 19, 12, 15], [1, 2, 18, 19, 12, 13, 14])
 
 def fnv(b):
     h = 2166136261
@@ -240,7 +239,29 @@ def fnv(b):
         h = ((h ^ x) * 16777619) & 0xffffffff
     return h
 
+class _Shape(Exception):
+    """the event trace cannot be read as a sequence of operations: the linearisation
+    points the oracle needs (ids 1, 4, 11, 16/17) are not where program order puts
+    them.  The property says nothing about hook ids, so this is no Spec failure; the
+    model/implementation tie compares the full event trace and reports it."""
+
 def spec_check(case, impl):
+    try:
+        return _judge(case, impl, False)
+    except _Shape:
+        return None
+
+def is_bundle(m):
+    return m.startswith(b"#bundle\0")
+
+def _judge(case, impl, wedge):
+    """wedge=False: the Spec.  wedge=True: the Spec with the behaviour finding
+    bundle-not-last describes put in its place - a read whose target message is a
+    bundle that is followed, at the read's own load of write, by another published
+    message returns nothing and consumes nothing (a normal read still resets the
+    lookahead position); everything else (drops, free space,
+    hasNext, the other messages, final indices and buffer) is judged as before.
+    classify() uses it to make sure the finding explains the WHOLE trace."""
     f = case.split(" ")
     if f[0] == "soak":
         return None if impl.startswith("soak ok") else "soak: free-running FIFO self-check failed: " + impl[:200]
@@ -264,7 +285,7 @@ def spec_check(case, impl):
     fin = d["fin"].split(",")
     fw, fr, frl, fbuf = int(fin[0]), int(fin[1]), int(fin[2]), (b"" if fin[3] == "-" else bytes.fromhex(fin[3]))
     if len(wo) != len(wops):
-        return "shape: %d writer results for %d writes" % (len(wo), len(wops))
+        return "format: %d writer results for %d writes" % (len(wo), len(wops))
     wev = [(i, e) for i, e in enumerate(evs) if e[0] == "W"]
     rev = [(i, e) for i, e in enumerate(evs) if e[0] == "R"]
     # ---- reader: pair events and outputs with the script (program order) ----
@@ -276,31 +297,37 @@ def spec_check(case, impl):
     for op in rops:
         la = op[1] == "1"
         if rpos + 2 > len(rev) or [rev[rpos][1][1], rev[rpos + 1][1][1]] != [1, 2]:
-            return "shape: hasNext is not (load write, load read) in the event trace"
+            raise _Shape("hasNext is not (load write, load read) in the event trace")
         t_has = rev[rpos][0]
         rpos += 2
         if ri >= len(ro) or not re.match(r"H[01]:[01]$", ro[ri]) or (ro[ri][1] == "1") != la:
-            return "shape: reader output %d is not the hasNext answer" % ri
+            return "format: reader output %d is not the hasNext answer" % ri
         b = ro[ri][3] == "1"
         ri += 1
-        rlog.append(("H", la, b, t_has))
+        rlog.append(("H", la, b, t_has, t_has))
         if op[0] == "t" and b:
-            ids = []
+            # the read: from its own load of write (id 1) to the store of the index
+            # (id 16 lookahead / 17 normal); what lies between is not the oracle's business
+            if rpos >= len(rev) or rev[rpos][1][1] != 1:
+                raise _Shape("read does not start with the load of write")
+            t_vec = rev[rpos][0]
             while rpos < len(rev) and rev[rpos][1][1] not in (16, 17):
-                ids.append(rev[rpos][1][1]); rpos += 1
-            if rpos >= len(rev) or ids not in [list(s) for s in READ_SHAPES] or rev[rpos][1][1] != (16 if la else 17):
-                return "shape: read is not (vector, frame, load, copy, store) in the event trace: %s" % ids
+                rpos += 1
+            if rpos >= len(rev) or rev[rpos][1][1] != (16 if la else 17):
+                raise _Shape("read does not end with the store of its index")
             t_store = rev[rpos][0]
             rpos += 1
             if ri >= len(ro) or not ro[ri].startswith("R%d:" % (1 if la else 0)):
-                return "shape: reader output %d is not the read result" % ri
+                return "format: reader output %d is not the read result" % ri
             data = ro[ri][3:]
             ri += 1
-            rlog.append(("R", la, b"" if data == "-" else bytes.fromhex(data), t_store))
-            if not la:
+            rlog.append(("R", la, b"" if data == "-" else bytes.fromhex(data), t_store, t_vec))
+            # a read that returned nothing took nothing out of the queue (it is judged
+            # below); for the writer's free space only real consumptions count
+            if not la and data != "-":
                 consumed_at.append(t_store)
     if rpos != len(rev) or ri != len(ro):
-        return "shape: reader events/outputs left over"
+        raise _Shape("reader events/outputs left over")
     # ---- writer: decide every write from the abstract queue --------------------
     # free space at the moment the writer loads read (event id 4)
     acc = []                  # accepted messages, in order
@@ -317,7 +344,7 @@ def spec_check(case, impl):
         if kind != "r" and ln > MM:
             ln = 0            # the encoder reports 0: nothing to queue
         if wpos + 2 > len(wev) or [wev[wpos][1][1], wev[wpos + 1][1][1]] != [3, 4]:
-            return "shape: write %d does not start with ring_write_size (load write, load read)" % k
+            raise _Shape("write %d does not start with ring_write_size (load write, load read)" % k)
         t_dec = wev[wpos + 1][0]
         h0 = wev[wpos][1][5]
         first = wpos
@@ -331,11 +358,13 @@ def spec_check(case, impl):
             if wo[k] != "D":
                 return "drop-nofit: write %d of %d bytes was queued with %d bytes free" % (k, ln, N - 1 - occ)
             drops.append((k, first)); continue
-        ids = []
-        while wpos < len(wev) and wev[wpos][1][1] != 11:
-            ids.append(wev[wpos][1][1]); wpos += 1
-        if wpos >= len(wev) or ids not in ([5, 6, 10], [5, 6, 7, 8, 9]):
-            return "shape: ring_write is not (next, compare, copy.., publish): %s" % ids
+        # up to the publishing store (id 11); a write that never gets there was dropped
+        while wpos < len(wev) and wev[wpos][1][1] not in (11, 3):
+            wpos += 1
+        if wpos >= len(wev) or wev[wpos][1][1] != 11:
+            if wo[k] == "D":
+                return "lost: write %d of %d bytes fits (%d free, MaxMsg %d) but was dropped" % (k, ln, N - 1 - occ, MM)
+            raise _Shape("write %d was accepted without a publishing store" % k)
         t_pub = wev[wpos][0]
         wpos += 1
         if ln == 0:
@@ -346,7 +375,7 @@ def spec_check(case, impl):
             return "lost: write %d of %d bytes fits (%d free, MaxMsg %d) but was dropped" % (k, ln, N - 1 - occ, MM)
         acc.append(m); pub_at.append(t_pub)
     if wpos != len(wev):
-        return "shape: writer events left over"
+        raise _Shape("writer events left over")
     # a dropped write disturbs nothing: the buffer is the same at its first event and at the writer's next operation
     starts = [i for i, (_, e) in enumerate(wev) if e[1] == 3]
     for k, first in drops:
@@ -361,7 +390,7 @@ def spec_check(case, impl):
             return "drop-disturbs: dropped write %d changed the buffer or the write index" % k
     # ---- FIFO, lookahead, hasNext ---------------------------------------------
     c = p = 0
-    for kind, la, val, t in rlog:
+    for kind, la, val, t, t0 in rlog:
         npub = sum(1 for x in pub_at if x < t)
         if kind == "H":
             avail = npub - c - (p if la else 0)
@@ -372,6 +401,14 @@ def spec_check(case, impl):
             idx = c + p if la else c
             if idx >= len(acc):
                 return "fifo: read returned a message but only %d were accepted" % len(acc)
+            if val == b"":
+                # guarded by a hasNext that answered 1, so a message was due
+                if wedge and is_bundle(acc[idx]) and sum(1 for x in pub_at if x < t0) > idx + 1:
+                    if not la:
+                        p = 0         # read_lookahead = read = read + 0
+                    continue          # the finding: nothing returned, nothing consumed
+                return "fifo: %s read %d returned nothing, expected message %d = %s" % (
+                    "lookahead" if la else "normal", idx, idx, acc[idx].hex())
             if val != acc[idx]:
                 kindtxt = "torn/foreign" if val not in acc else "out of order/duplicated"
                 return "fifo: %s read %d returned %s, expected message %d = %s (%s)" % (
@@ -422,9 +459,22 @@ def is_bundle_not_last(case):
     return any(bytes.fromhex(o[1:]).startswith(b"#bundle\0") for o in ws[:-1])
 
 def classify(case, impl, failure):
-    if is_bundle_not_last(case):
-        return "bundle-not-last"
-    return None
+    """bundle-not-last = the signature of the finding and nothing else: a guarded
+    read (or lookahead read) returned nothing where a bundle was due that another
+    published message follows, and with exactly that behaviour granted (_judge with
+    wedge=True) the rest of the trace satisfies the Spec.  A crash, a wrong drop
+    decision, a disturbed buffer, wrong final indices, an out-of-bounds report, a
+    wrong hasNext answer or a wrong non-empty message in the same case are never
+    excused."""
+    if not re.match(r"fifo: (normal|lookahead) read \d+ returned nothing", failure):
+        return None
+    if not is_bundle_not_last(case):
+        return None
+    try:
+        rest = _judge(case, impl, True)
+    except _Shape:
+        return None
+    return "bundle-not-last" if rest is None else None
 
 # ---------------------------------------------------------------------------
 def pre_build(ctx):
@@ -457,6 +507,12 @@ LEVEL_TEXT = ("For every ring size, every writer/reader script of well-formed me
               "model's reads are exactly the accepted messages in order, hasNext is the abstract emptiness test at its "
               "load of write, dropped writes change nothing, lookahead reads do not consume, the plain buffer accesses of "
               "the two threads never conflict. The model is tied to the code on every run: same schedule on two real "
-              "threads, every event (hook id, indices, buffer hash), every result and the final buffer compared.")
-LEVEL_NOTE = ("Trusted: Coq kernel, extraction, OCaml driver, harness/scheduler, generator, DRF-SC meta-theorem, frame_hd "
-              "hypothesis (message framing is self-delimiting for well-formed non-bundle messages).")
+              "threads, every event (hook id, indices, buffer hash), every result and the final buffer compared. "
+              "With the OSC framing function: proved for scripts of well-formed non-bundle messages "
+              "(C06_fifo_osc_partial) and for scripts whose only bundle is the last message (C06_fifo_osc_bundle_last); "
+              "a bundle followed by another message wedges the queue (C06_bundle_not_last_refuted, finding "
+              "bundle-not-last; the classifier accepts only that signature - an empty guarded read of such a bundle, "
+              "the rest of the trace judged with that behaviour granted).")
+LEVEL_NOTE = ("Trusted: Coq kernel, extraction, OCaml driver, harness/scheduler, generator, DRF-SC meta-theorem. The framing "
+              "hypothesis is discharged for the OSC length model (C06_frame_ok_osc, C06_fifo_osc_bundle_last); the order "
+              "of hook ids inside an operation is compared by the tie only (the Spec oracle needs ids 1, 4, 11, 16/17).")
